@@ -1,5 +1,5 @@
 (* InterruptProofs.v — interrupts: isolation, pause identity, resume (C14). *)
-From HG Require Import Base Rename Engine Exec Nested NestedProofs EngineProofs.
+From HG Require Import Base Rename Engine Exec Nested NestedProofs EngineProofs Samples.
 From stdpp Require Import gmap.
 
 (* the asynchronous step runs an interrupt alone: the first interrupt of the ready list *)
@@ -61,3 +61,69 @@ Proof.
   intros H. pose proof (run_loop_spec exec r fuel g pv st log) as Hs. rewrite H in Hs.
   destruct Hs as (k & sk & s2 & calls & Hk & Hst & _ & Hss & ->). eauto 10.
 Qed.
+
+(* NOTHING COMPUTED IS LOST (repository fix for finding F-s).  run_superstep_async runs alone every node that may pause - an
+   InterruptNode, or a nested-graph node whose inner graph holds one (is_interrupt).  So, provided only such nodes pause, the
+   step that pauses called the pausing node and no other: the pre-step state the runner attaches to the pause is everything
+   that has been computed.  (Before the fix a GraphNode holding an interrupt was not isolated; its siblings ran in the pausing
+   step and their outputs were dropped from the PAUSED result.) *)
+Lemma first_failure_pause exec g snap pv rd p :
+  first_failure exec g snap pv rd = Some (inr p) ->
+  exists n, In n rd /\ snd (run_one exec g snap pv n) = OPause p.
+Proof.
+  induction rd as [|a rd IH]; [discriminate|]. cbn [first_failure List.fold_right].
+  destruct (snd (run_one exec g snap pv a)) as [outs dec|e|q] eqn:Ea.
+  - intros H. destruct (IH H) as (n & Hn & Hp). exists n. split; [right; exact Hn | exact Hp].
+  - discriminate.
+  - intros H. injection H as <-. exists a. split; [left; reflexivity | exact Ea].
+Qed.
+
+Theorem pausing_step_calls_only_the_pausing_node exec g snap pv rd pi p acc calls :
+  (forall n q, In n rd -> snd (run_one exec g snap pv n) = OPause q -> is_interrupt n = true) ->
+  superstep_async exec g snap pv rd pi = (SPause p acc, calls) ->
+  exists i, isolate rd = [i] /\ is_interrupt i = true /\ snd (run_one exec g snap pv i) = OPause p /\
+            calls = match fst (run_one exec g snap pv i) with Some ins => [(n_name i, ins)] | None => [] end.
+Proof.
+  intros Hsrc H. unfold superstep_async in H.
+  destruct (List.filter is_interrupt rd) as [|i rest] eqn:Ef.
+  - exfalso. rewrite (isolate_none rd Ef) in H.
+    destruct (first_failure exec g snap pv rd) as [[e|q]|] eqn:Eff; try discriminate.
+    destruct (first_failure_pause _ _ _ _ _ _ Eff) as (n & Hn & Hp).
+    assert (Hin : In n (List.filter is_interrupt rd)) by (apply filter_In; split; [exact Hn | exact (Hsrc n q Hn Hp)]).
+    rewrite Ef in Hin. destruct Hin.
+  - rewrite (isolate_interrupt rd i rest Ef) in H.
+    assert (Hi : is_interrupt i = true).
+    { assert (Hin : In i (List.filter is_interrupt rd)) by (rewrite Ef; left; reflexivity). apply filter_In in Hin. apply Hin. }
+    destruct (first_failure exec g snap pv [i]) as [[e|q]|] eqn:Eff; try discriminate.
+    injection H as <- _ <-.
+    destruct (first_failure_pause _ _ _ _ _ _ Eff) as (n & [<-|[]] & Hp).
+    exists i. split; [apply (isolate_interrupt rd i rest Ef)|]. split; [exact Hi|]. split; [exact Hp|].
+    unfold async_calls. cbn [flat_map]. rewrite app_nil_r. reflexivity.
+Qed.
+
+(* the flag of a nested-graph node is computed from the inner graph: it holds an interrupt iff one of its nodes may pause *)
+Lemma graphnode_of_flag nm inner hin hout :
+  is_interrupt (graphnode_of nm inner hin hout) = existsb is_interrupt (g_nodes (ng_graph inner)).
+Proof.
+  unfold graphnode_of, is_interrupt at 1. cbn [n_kind n_fn].
+  destruct (existsb is_interrupt (g_nodes (ng_graph inner))); reflexivity.
+Qed.
+
+(* non-vacuity: sibling(x)->a ; inner = Graph([interrupt ask(x)->d]) as node 20 ; consume(d, a)->b.  The wrapper carries the flag,
+   the pausing step calls it alone (the sibling is NOT called), and the paused result is empty - exactly as for the flat graph *)
+Local Open Scope positive_scope.
+Definition hold_inner : ngraph :=
+  mk_ng [mk_node 11 [1] [32] 1%nat [] [] [] KInterrupt 2] [] None None [(2, FConst VNone)] [] [].
+Definition hold_outer : ngraph :=
+  mk_ng [fnode 10 [1] [31] 1; graphnode_of 20 hold_inner [] []; fnode 12 [32; 31] [33] 3] [] None None
+        [(1, FSym 10); (3, FSym 12)] [] [mk_sub 20 hold_inner [] [] None].
+Definition hold_flat : ngraph :=
+  mk_ng [fnode 10 [1] [31] 1; mk_node 11 [1] [32] 1%nat [] [] [] KInterrupt 2; fnode 12 [32; 31] [33] 3] [] None None
+        [(1, FSym 10); (2, FConst VNone); (3, FSym 12)] [] [].
+Example nested_holder_runs_alone :
+  is_interrupt (graphnode_of 20 hold_inner [] []) = true /\
+  (let r := run_ng 3 Async 20 hold_outer [(1, VInt 5)] None in
+   (res_status r, res_values r, res_log r) = (2%nat, [], [[(20, [(1, VInt 5)])]])) /\
+  (let r := run_ng 3 Async 20 hold_flat [(1, VInt 5)] None in
+   (res_status r, res_values r, res_log r) = (2%nat, [], [[(11, [(1, VInt 5)])]])).
+Proof. vm_compute. repeat split; reflexivity. Qed.
